@@ -45,7 +45,7 @@ MUTANTS = [
     ("fork_child_keeps_mask", "process.posix.c", "  r = signal_mask(SIG_SETMASK, &mask.new, NULL);\n  if (r < 0) {\n    goto finish;\n  }", "", "process_fork_child", "C12/process_fork.child_clean_signal_state"),
     ("fork_child_skips_low_fds", "process.posix.c", "for (int i = 0; i <= max_fd; i++)", "for (int i = 3; i <= max_fd; i++)", "process_fork_child", "C11+C02/process_fork.child_keeps_only_excepted_descriptors"),
     ("fork_child_off_by_one_again", "process.posix.c", "for (int i = 0; i <= max_fd; i++)", "for (int i = 0; i < max_fd; i++)", "process_fork_child", "C11+C02/process_fork.child_keeps_only_excepted_descriptors"),
-    ("start_exit_handle_cloexec", "process.posix.c", "    r = handle_cloexec(options.handle.exit, false);", "    r = handle_cloexec(options.handle.exit, true);", "process_start_child", "C11/exec.exit_handle_inherited"),
+    ("start_exit_handle_cloexec", "process.posix.c", "    r = handle_cloexec(options.handle.exit, false);", "    r = handle_cloexec(options.handle.exit, true);", "process_start_child", "C01+C08+C09+C11/exec.exit_handle_inherited"),
     ("start_chdir_after_exec_order", "process.posix.c", "    if (options.working_directory != NULL) {\n      r = chdir(options.working_directory);", "    if (options.working_directory == NULL) {\n      r = chdir(\".\");", "process_start_child", "C03/exec.working_directory"),
     ("start_env_not_installed", "process.posix.c", "    environ = env;\n", "", "process_start_child", "C03/exec.environment_is_parent_then_extra"),
     ("start_env_ignores_behavior", "process.posix.c", "options.env.behavior == REPROC_ENV_EMPTY ? NULL", "options.env.behavior == REPROC_ENV_EXTEND ? NULL", "process_start_child", "C03/exec.environment_is_parent_then_extra"),
